@@ -424,6 +424,22 @@ impl Env {
           },
         )
       }
+      Src::IntervalUs(us) => {
+        observables::interval(Duration::from_micros(*us), schedulers::new_thread_scheduler()).map(
+          move |n: u64| {
+            let _t = &tok;
+            V::new(&ctx, P::I(n as i64))
+          },
+        )
+      }
+      Src::TimerUs(us) => {
+        observables::timer(Duration::from_micros(*us), schedulers::new_thread_scheduler()).map(
+          move |_: ()| {
+            let _t = &tok;
+            V::new(&ctx, P::U)
+          },
+        )
+      }
       Src::IntervalDefault(ms) => {
         observables::interval(Duration::from_millis(*ms), schedulers::default_scheduler()).map(
           move |n: u64| {
